@@ -80,6 +80,9 @@ class World:
         self.steps = 0
         self.in_world = False
         self.started: list = []  # (worker, tasks, datasets on the host at that moment)
+        self.fault = None  # ("kill-worker", WorkerId, at_step) | ("kill-data", host, at_step) | ("kill-shm", host, at_step)
+        self.fault_applied = False
+        self.fatal = None
         code = h_worker.lift_loop()
         for hi, gpus in enumerate(hosts):
             h = f"h{hi}"
@@ -157,6 +160,13 @@ class World:
             msg = serde.des_message(frames[0])
             try:
                 r = self.workers[w]["step"](msg)
+            except SystemExit as e:
+                # the task body called sys.exit: the worker process ends with that code, nothing is reported by the worker itself
+                code = e.code if isinstance(e.code, int) else (0 if e.code is None else 1)
+                self.problems.append(("worker-process-exited", f"{w}: exit code {code}"))
+                self.execs[w.host].workers[w].exitcode = code
+                self.workers[w]["alive"] = False
+                return
             except Exception as e:
                 # the real process would die with this exception: exit code 1, noticed by the executor's healthcheck
                 self.problems.append(("worker-process-died", f"{w}: {type(e).__name__}: {e}"))
@@ -185,7 +195,8 @@ class World:
             while True:
                 guard += 1
                 if guard > 5000 or self.steps > 20000:
-                    raise Violation("controller-waits-forever", "the cluster keeps exchanging messages but nothing reaches the controller")
+                    raise self._fatal(Violation("controller-waits-forever", "the cluster keeps exchanging messages but nothing reaches the controller"))
+                self._maybe_fault()
                 en = self._enabled()
                 have = bool(fakezmq.NET.q(CTRL))
                 options = en + ([("return",)] if have else [])
@@ -193,7 +204,7 @@ class World:
                     # nobody can move without time passing: timers fire (heartbeats, resends)
                     self.idle_jumps += 1
                     if self.idle_jumps > 6:
-                        raise Violation("controller-waits-with-nothing-outstanding", f"no component has anything to do and the controller still waits; trace tail {self.trace[-8:]}")
+                        raise self._fatal(Violation("controller-waits-with-nothing-outstanding", f"no component has anything to do and the controller still waits; trace tail {self.trace[-8:]}"))
                     CLOCK.now += 5_000_000_000
                     for h, ex in self.execs.items():
                         if not ex.terminating:
@@ -212,6 +223,29 @@ class World:
                 self._do(opt)
         finally:
             self.in_world = False
+
+    def _fatal(self, v):
+        # the code under test catches Exception around its receive loop: what the harness has to say is kept aside as well
+        if self.fatal is None:
+            self.fatal = v
+        return v
+
+    def _maybe_fault(self):
+        f = self.fault
+        if f is None or self.fault_applied or self.steps < f[2]:
+            return
+        self.fault_applied = True
+        self.trace.append(("FAULT",) + tuple(map(str, f[:2])))
+        if f[0] == "kill-worker":
+            w = f[1]
+            if self.workers[w]["alive"]:
+                self.workers[w]["alive"] = False
+                self.execs[w.host].workers[w].exitcode = -9
+        elif f[0] == "kill-data":
+            self.execs[f[1]].data_server.exitcode = -9
+            self.execs[f[1]].data_server.killed = True  # it no longer takes steps
+        elif f[0] == "kill-shm":
+            self.execs[f[1]].shm_process.exitcode = -9
 
     def drain(self):
         """After the controller has returned: everything already sent is still delivered and handled."""
@@ -235,7 +269,17 @@ class Stack(Harness):
     def __init__(self, name, pid):
         self.name, self.pid, self.properties = name, pid, (pid,)
 
+    FAULTS = ["raise", "exit0", "exit3", "kill-worker", "kill-data", "kill-shm"]
+
     def shards(self, tier):
+        if self.pid == "C05":
+            out = []
+            for fault in self.FAULTS:
+                for hosts in (["1x1", "2x1"] if tier == "quick" else ["1x1", "2x1", "1x2", "2x2"]):
+                    out.append({"n": 2, "multi": [0, 0], "hosts": hosts, "K": 2 if tier == "quick" else 4, "fixed": {"0-1": 1}, "fault": fault})
+                    if tier == "thorough":
+                        out.append({"n": 3, "multi": [0, 0, 0], "hosts": hosts, "K": 3, "fixed": {"0-1": 1, "0-2": 1, "1-2": 0}, "fault": fault})
+            return out
         out = []
         K = 3 if tier == "quick" else 6
         for hosts in (["1x1", "2x1", "1x2"] if tier == "quick" else ["1x1", "2x1", "1x2", "2x2", "3x1"]):
@@ -270,6 +314,11 @@ class Stack(Harness):
             fixed = {tuple(map(int, k.split("-"))): v for k, v in params.get("fixed", {}).items()}
             h_ctrl.FALSY["on"] = False
             job, spec = h_ctrl.build_job(ch, n, multi, False, fixed)
+            fault = params.get("fault")
+            fault_task = None
+            if fault in ("raise", "exit0", "exit3"):
+                fault_task = ch.pick(n, "failing_task")
+                job = with_failing_task(job, f"t{fault_task}", fault)
             old_cb, old_shm = r_memory.callback, r_memory.shm_client
             r_memory.callback, r_memory.shm_client = comms.callback, sim_cluster.SHIM
             counter = h_ctrl.PlanCounter(8 * (n + len(job.edges) + len(job.ext_outputs)) + 16)
@@ -278,12 +327,23 @@ class Stack(Harness):
             world = None
             try:
                 world = World(job, hosts, ch, params["K"])
+                if fault in ("kill-worker", "kill-data", "kill-shm"):
+                    at = ch.pick(8, "fault_at_step")
+                    if fault == "kill-worker":
+                        world.fault = (fault, ch.choose(sorted(world.workers, key=repr), "victim"), at)
+                    else:
+                        world.fault = (fault, ch.choose(sorted(world.execs), "victim"), at)
                 fakezmq.NET.on_poll = world.on_poll
                 br = bridge_mod.Bridge(CTRL, len(hosts))
                 pre = s_graph.precompute(job)
                 try:
-                    state = impl.run(job, br, pre)
-                    world.drain()
+                    try:
+                        state = impl.run(job, br, pre)
+                    finally:
+                        if self.pid == "C05":
+                            world.drain()
+                    if self.pid != "C05":
+                        world.drain()
                 except Violation:
                     raise
                 except HarnessError:
@@ -299,7 +359,32 @@ class Stack(Harness):
                                     "ext": [f"t{j}.{o}" for j, o in spec["ext"]], "hosts": params["hosts"], "multi": multi})
                     ch.note("trace", [" ".join(t) for t in world.trace[:60]])
             ch.note("nontrivial", n >= 2 and len(job.edges) >= 1)
+            if world is not None and world.fatal is not None:
+                raise world.fatal
             oracle = h_ctrl.sequential(spec)
+            if self.pid == "C05":
+                ch.note("fault", {"kind": fault, "task": fault_task, "where": [str(x) for x in (world.fault or ())], "applied": world.fault_applied, "ended": "raised" if crashed is not None else "returned"})
+                ch.note("nontrivial", fault_task is not None or world.fault_applied)
+                # the run has ended (we are here): with an error, or with correct values only
+                if crashed is None:
+                    for (j, o) in spec["ext"]:
+                        v = state.outputs.get(DatasetId(f"t{j}", o))
+                        if v is None or v != oracle[(j, o)]:
+                            raise Violation("run-returned-a-wrong-or-missing-value-after-a-failure", f"t{j}.{o}: {v!r}")
+                    if fault_task is not None:
+                        raise Violation("failing-task-did-not-fail-the-run", f"task t{fault_task} ({fault}) and the run returned normally")
+                # afterwards nothing is left running
+                for h, ex in world.execs.items():
+                    if not ex.terminating:
+                        raise Violation("executor-left-running-after-the-run-ended", f"{h} (run {'raised' if crashed is not None else 'returned'})")
+                    if ex.data_server.exitcode is None and not ex.data_server.killed:
+                        raise Violation("data-server-left-running", h)
+                    if ex.shm_process.exitcode is None and _shm_calls.count("shutdown") < 1:
+                        raise Violation("shm-server-left-running", h)
+                for w, d in world.workers.items():
+                    if d["alive"]:
+                        raise Violation("worker-left-running", f"{w} after the run {'raised' if crashed is not None else 'returned'}")
+                return
             if self.pid == "C02":
                 # a worker starts a sequence only when every input is on its host: a read of a missing dataset is the symptom
                 for key, msg in world.problems:
@@ -338,6 +423,30 @@ class Stack(Harness):
                     raise Violation("component-problem-during-a-successful-run", str(world.problems[:3]))
 
 
+def _boom(*a, **k):
+    raise RuntimeError("task body failed")
+
+
+def _exit0(*a, **k):
+    raise SystemExit(0)
+
+
+def _exit3(*a, **k):
+    raise SystemExit(3)
+
+
+def with_failing_task(job, tid, kind):
+    from cascade.low.core import JobInstance, TaskDefinition
+
+    body = {"raise": _boom, "exit0": _exit0, "exit3": _exit3}[kind]
+    tasks = dict(job.tasks)
+    t = tasks[tid]
+    d = t.definition.model_copy(update={"func": TaskDefinition.func_enc(body)})
+    tasks[tid] = t.model_copy(update={"definition": d})
+    return JobInstance(tasks=tasks, edges=list(job.edges), ext_outputs=list(job.ext_outputs), serdes=dict(job.serdes))
+
+
+register(Stack("fullstack-C05", "C05"))
 register(Stack("fullstack-C01", "C01"))
 register(Stack("fullstack-C02", "C02"))
 register(Stack("fullstack-C03", "C03"))
